@@ -206,20 +206,41 @@ CHECK = {
     "rule": "check-up op sequences (kind, scalar type, thresholds dyadic or not, values on thresholds / +-1 ulp / random, "
             "timeouts interleaved); non-trivial = the sequence shows at least two different verdicts; status algebra: all "
             "pairs and triples exhaustively plus random lists <= 20; report append: random reports",
-    "trusted": ["hand-written model coq/DiagModel.v tied by differential execution (this run)",
-                "translator translate/constants.py (enumerator values)", "extraction (ExtrOcamlBasic), ocaml/numf.ml, ocaml/drv_C18.ml",
+    "trusted": ["translators translate/tr_C18_diag.py + imptrans.py (clang JSON AST -> Gallina; its vocabulary: the report of a check-up "
+                "(one diagnostic, one info entry) = DiagModel.creport, message endings = DiagModel.suffix by a fixed table, std::list = list, "
+                "a const_iterator = the suffix it points into, std::map range insert = fold of map_insert, lock_guard skipped) and "
+                "translate/constants.py (enumerator values)",
+                "constructors (initial diagnostic / empty info value) and toStringInfoValue: tied by differential execution only (this run)",
+                "binary64 theorems: hardware arithmetic = one round-to-nearest-even per C++ operation; no overflow of cmp +- eps",
+                "extraction (ExtrOcamlBasic), ocaml/numf.ml, ocaml/drv_C18.ml",
                 "harness/C18.cpp, python oracle in checks/C18.py", "std::ostream default float formatting == printf %g"],
     "manifest": {
-        "text": "Theorems for all real values/thresholds (iff-characterisation of each verdict, |v-target|<=eps), for all op "
+        "text": "SYNTACTIC TIE: Checkup<double>::setDiagnostic_ / setValue_ / getStatus_ / timeout, CheckupEqualTo / GreaterThan / "
+                "LowerThan<double>::evaluate (the instantiation at double), CheckupReliability::evaluate and its helpers, worse, worseStatus "
+                "(its iterator loop as a structural fix), allOK and operator+=(DiagnosticReport) are regenerated on every run from the clang AST "
+                "of the current source (coq/gen/SrcDiag.v) and proved EQUAL to the functions of DiagModel.v the theorems are about, for every "
+                "numeric dictionary (SrcTieC18.v, theorems C18_source_tie_*). "
+                "Theorems for all real values/thresholds (iff-characterisation of each verdict, |v-target|<=eps), for all op "
                 "sequences (report consistency, thresholds immutable, history freedom) and for all statuses/lists (worse is a "
-                "join = max, worst = maximum attained, allOK iff all OK, append = concatenation + key-preserving merge), proved "
-                "in Coq about the model; the model is tied to the code by executing its float instance against the real classes "
-                "on generated sequences aimed at the thresholds (exact, +-1 ulp) and by regenerating the enum values from source.",
-        "note": "Trusted: Coq kernel; real-number axioms of the Coq standard library (listed per theorem in evidence); "
-                "hand-written model tied only by differential execution; extraction; numf.ml float dictionary; harness and oracle. "
-                "Floating-point rounding of target+-eps is observed, not proved.",
-        "technique": "Coq proof (case analysis over R / induction over op lists) + extracted-model correspondence run",
+                "join = max, worst = maximum attained, allOK iff all OK, append = concatenation + key-preserving merge). "
+                "BINARY64 (Flocq, C18_thresholds_binary64_*): comparisons are exact, the only rounding is in cmp -+ eps; the double evaluation "
+                "(state, report, returned status) equals the real-number one of the property for every double value EXCEPT exactly when the "
+                "value is the rounded threshold and rounding moved the threshold across it (iff); inside that band greater/lower-than say "
+                "ERROR where the property says OK and equal-to says OK where the property says ERROR; hence agreement whenever the value is "
+                "farther than half an ulp from the real threshold, and for EVERY value when the thresholds are doubles or epsilon = 0; the "
+                "reliability check-up never rounds. The model's float instance is also executed against the real classes on generated "
+                "sequences aimed at the thresholds (exact, +-1 ulp), and the enum values are regenerated from source.",
+        "note": "Trusted: Coq kernel; real-number axioms of the Coq standard library (listed per theorem in evidence); the AST-to-Gallina "
+                "translator and its vocabulary (message strings abstracted to an enum of endings by a fixed table, an unknown ending is "
+                "refused; the name part of a message must be report_.info.begin()->first); constructors tied by differential execution "
+                "only; extraction; numf.ml float dictionary; harness and oracle. The tie breaks (checked by hand) on < -> <= in a "
+                "threshold test, an early exit from the loop of worseStatus, insertion at begin in operator+=, exchanged enumerator "
+                "values (through the constants translator and C18_severity_order); it survives hoisting cmp - eps into a local, b < a for "
+                "a > b, renaming locals.",
+        "technique": "Coq proof (case analysis over R / induction over op lists; Flocq rounding analysis) + source-to-Gallina translation "
+                     "with tie lemmas + extracted-model correspondence run",
     },
-    "assumptions": ["comparisons are read over the reals in the theorems; the float instance is executed and compared",
+    "assumptions": ["comparisons are read over the reals in the property theorems; the binary64 theorems relate them to the rounded "
+                    "dictionary (one rounding per operation, no overflow of cmp +- eps); the float instance is executed and compared",
                     "std::map / std::list / std::string / std::ostream behave as specified"],
 }
